@@ -642,4 +642,19 @@ theorem C18_extension_refuses_iff (k : Checker) (h : k.spike ≤ k.limit) (hl : 
     extMustRefuse (check k gs gh s r).st = true ↔ (check k gs gh s r).latest ≥ k.limit - k.spike :=
   C18_refuse_iff k h hl gs gh s r
 
+
+/-- **forwarding does not depend on the item count**: while not refusing, a payload with zero items
+(completely empty, resource-only, scope-only) reaches the next consumer like any other and downstream's
+result — an error included — is what the caller gets; the helper has no "nothing left, skip" shortcut -/
+theorem C18_consume_forwards_empty {α : Type} (sig : Sig) (items : α → Nat) (payload : α) (next : α → Res)
+    (_h0 : items payload = 0) :
+    (consumeFull sig items false payload next).forwarded = some payload ∧
+    (consumeFull sig items false payload next).res = next payload :=
+  ⟨(C18_consumeFull_accepting sig items payload next).1, (C18_consumeFull_accepting sig items payload next).2.1⟩
+
+/-- a zero-item payload in front of a failing downstream: forwarded, the error comes back -/
+example : (consumeFull .logs (fun _ : Unit => 0) false () (fun _ => .downstream 1 false)).forwarded = some () ∧
+    (consumeFull .logs (fun _ : Unit => 0) false () (fun _ => .downstream 1 false)).res = .downstream 1 false ∧
+    (consumeFull .profiles (fun _ : Unit => 0) true () (fun _ => .ok)).res = .refused := by decide
+
 end OtelVerif.C18
